@@ -117,7 +117,8 @@ class CompoundLowLevelWCS(BaseWCSWrapper):
                 world_arrays.extend(world_arrays_sub)
             else:
                 world_arrays.append(world_arrays_sub)
-        return tuple(world_arrays)
+        # A single world dimension is returned as an array, not a tuple (APE 14).
+        return tuple(world_arrays) if self.world_n_dim > 1 else world_arrays[0]
 
     def world_to_pixel_values(self, *world_arrays):
         pixel_arrays = []
@@ -142,7 +143,9 @@ class CompoundLowLevelWCS(BaseWCSWrapper):
                             "The world inputs for shared pixel axes did not result in a pixel "
                             f"coordinate to within {self.atol} relative accuracy."
                         )
-        return self.mapping.inverse(*pixel_arrays)
+        pixel_arrays = self.mapping.inverse(*pixel_arrays)
+        # A single pixel dimension is returned as an array, not a tuple (APE 14).
+        return pixel_arrays if self.pixel_n_dim > 1 else pixel_arrays[0]
 
     @property
     def world_axis_object_components(self):
